@@ -44,7 +44,7 @@ theorem c09_gc_walk_shadowed_diverges (c : OciCfg) (g : GMem) (n s : Node)
     cascade entries and saves the index after GC (facts re-extracted on every run). -/
 theorem c09_source_facts :
     Gen.gcWalkAdvances = true ∧ Gen.deleteIsTaggedCalls ≥ 2 ∧ Gen.deleteSkipsAbsent = true ∧
-    Gen.gcSavesIndex = true ∧ Gen.tagDropsStale = true := by
+    Gen.gcSavesIndex = true ∧ Gen.tagDropsStale = true ∧ Gen.gcRepeatsReferrerPass = true := by
   decide
 
 /-! ### Delete never touches another node's tag, nor a tagged node -/
